@@ -69,6 +69,12 @@ theorem sortBy_eq_of_perm {α} (key : α → Nat) {l l' : List α} (hp : l ~ l')
 
 /-! ### FOLLOWED BY -/
 
+/-- the relations the model's sweeps test are the ones the extractor found in `matcher.rs` -/
+theorem relations_tied (c : Cfg) (a b : Row) :
+    (Snel.Gen.C15.followedCand (c.ts a) (c.ts b) = decide (c.ts a ≤ c.ts b)) ∧
+    (Snel.Gen.C15.precededCand (c.ts a) (c.ts b) = decide (c.ts b < c.ts a)) ∧
+    Snel.Gen.C15.missingTs = 0 := ⟨rfl, rfl, rfl⟩
+
 /-- the only partner an a-row is ever compared with: the first b (in sorted order) not earlier -/
 def nearestF (c : Cfg) (a : Row) (bs : List Row) : Option Row := bs.find? fun b => c.ts a ≤ c.ts b
 
